@@ -126,6 +126,7 @@ type MultisetCombinationIterator struct {
 	m     []int
 	k     int
 	j     int
+	done  bool
 
 	//A buffer slice to return the value in as we iterate using FreqValue
 	value []int
@@ -178,10 +179,16 @@ func (iter *MultisetCombinationIterator) Next() bool {
 			break
 		}
 		if x > 0 {
+			iter.done = true
 			return false
 		}
 
 		return true
+	}
+
+	if iter.k == 0 || iter.done {
+		//The only multiset of size 0 has already been returned, or the iteration has finished.
+		return false
 	}
 
 	//Q4
@@ -201,6 +208,7 @@ func (iter *MultisetCombinationIterator) Next() bool {
 	//Q5
 Q5:
 	if j >= len(iter.m) {
+		iter.done = true
 		return false
 	}
 
@@ -238,6 +246,7 @@ Q7:
 	for iter.state[j] == iter.m[j] {
 		j++
 		if j >= len(iter.m) {
+			iter.done = true
 			return false
 		}
 	}
